@@ -39,7 +39,7 @@ ASSUMPTIONS = ["os._exit at event boundaries models process death (userspace buf
                "torn writes inside the HDF5 payload of the uncommitted file are not asserted (it has no hash yet)",
                "power-loss reordering / durability is not claimed (no fsync is promised)"]
 REQUIRED_CLASSES = {"all": ["long_chain_12_containers", "crash_in_commit", "crash_before_commit", "torn_inside_json", "outcome_fails_to_open",
-                            "outcome_uncommitted", "outcome_new_state", "outcome_old_state", "sigkill"]}
+                            "outcome_uncommitted", "outcome_new_state", "outcome_old_state", "sigkill", "sigkill_in_commit"]}
 BUDGET_S = {"quick": 900, "thorough": 4 * 3600}
 NSHARD = 16
 
@@ -294,11 +294,13 @@ say("ready")
 while True:
     say("begin %%d" %% i)
     rec["v%%d" %% i] = i
-    rec["blob"] = bytes([i %% 256]) * 3000 if "blob" not in rec else None
+    if "blob" not in rec:
+        rec["blob"] = bytes([1 + i %% 250]) * 3000
     if i: 
         if "v%%d" %% (i - 1) in rec and i %% 3 == 0:
             del rec["v%%d" %% (i - 1)]
     rec.attrs["last"] = i
+    say("cbegin %%d" %% i)
     rec.commit_patch()
     say("done %%d" %% i)
     rec.create_patch()
@@ -316,7 +318,7 @@ def expected_after(k):
     return t
 
 
-def kill_run(delay_ms, cls_name, rec):
+def kill_run(delay_ms, cls_name, rec, target=None):
     d = H.new_scratch("vt-c11k-")
     try:
         script = os.path.join(d, "writer.py")
@@ -333,7 +335,18 @@ def kill_run(delay_ms, cls_name, rec):
             if p.poll() is not None:
                 raise HarnessError("writer died before it was ready")
             time.sleep(0.01)
+        if target is not None:
+            # aimed kill: wait until the writer announces commit number `target`, then kill `delay_ms` later, so
+            # that the signal lands inside commit_patch (hashing / header rewrite / manifest write) far more often
+            want = "cbegin %d\n" % target
+            while time.time() - t0 < 60 and want not in open(lp).read():
+                if p.poll() is not None:
+                    raise HarnessError("writer died before the aimed commit")
+                time.sleep(0.0005)
         time.sleep(delay_ms / 1000.0)
+        if p.poll() is not None:
+            # the family is only meaningful while the writer is alive when the signal arrives
+            raise HarnessError("writer ended by itself (rc=%s) before the SIGKILL: %s" % (p.returncode, open(lp).read()[-200:]))
         p.send_signal(signal.SIGKILL)
         p.wait()
         lines = open(lp).read().split()
@@ -391,8 +404,11 @@ def kill_run(delay_ms, cls_name, rec):
                     H.close_leaked_h5(ids)
                     raise Violation("C11:readonly-look-at-leftover-raises-on-close", f"sigkill: {type(e).__name__}: {e}", "closes")
         between = begun > done
-        rec.case(nt_key=["kill", cls_name, done, outcome] if between else None, classes=["sigkill", outcome],
-                 sample=dict(kind="sigkill", delay_ms=delay_ms, done=done, begun=begun, outcome=outcome, files=len(files)))
+        in_commit = bool(log) and log[-1].startswith("cbegin")
+        rec.case(nt_key=["kill", cls_name, done, outcome, in_commit] if between else None,
+                 classes=["sigkill", outcome] + (["sigkill_in_commit"] if in_commit else []),
+                 sample=dict(kind="sigkill", delay_ms=delay_ms, target=target, done=done, begun=begun, outcome=outcome,
+                             in_commit=in_commit, files=len(files)))
     finally:
         shutil.rmtree(d, ignore_errors=True)
 
@@ -435,12 +451,16 @@ def run_shard(shard, tier, seed, rec):
         rng = random.Random(seed * 77 + i)
         n = {"quick": 10, "thorough": 100}[tier]
         for k in range(n):
-            delay = rng.choice([0, 1, 3, 5, 8, 13, 21, 34, 55, 89]) + rng.random() * 5
             cn = "IH5Record" if (k + i) % 2 == 0 else "IH5MFRecord"
+            if k % 2:
+                # aimed at commit number `target`: 0..6 ms after the writer announced it
+                target, delay = rng.randrange(0, 6), rng.random() * 6
+            else:
+                target, delay = None, rng.choice([0, 1, 3, 5, 8, 13, 21, 34, 55, 89]) + rng.random() * 5
             try:
-                kill_run(delay, cn, rec)
+                kill_run(delay, cn, rec, target)
             except Violation as v:
-                rec.fail(v.signature, dict(kind="sigkill", delay_ms=delay, cls=cn), v.observed, v.expected)
+                rec.fail(v.signature, dict(kind="sigkill", delay_ms=delay, cls=cn, target=target), v.observed, v.expected)
 
 
 def replay(rp, rec):
@@ -448,7 +468,7 @@ def replay(rp, rec):
     try:
         if rp["case"].get("kind") == "sigkill":
             for _ in range(3):
-                kill_run(rp["case"]["delay_ms"], rp["case"]["cls"], rec)
+                kill_run(rp["case"]["delay_ms"], rp["case"]["cls"], rec, rp["case"].get("target"))
         else:
             run_scenario(rp["case"], rec, "thorough")
     except Violation as v:
